@@ -11,4 +11,12 @@ INIT Init
 NEXT Next
 VIEW viewE
 ACTION_CONSTRAINT ExportG
+INVARIANT TypeOK
+INVARIANT CurIsOrigPlusNotes
+INVARIANT UntouchedAsReported
+INVARIANT ObservedTruth
+PROPERTY ObservedTruthA
+PROPERTY OnlyNamedPort
+PROPERTY FeaturesStartOver
+PROPERTY OthersLeaveAlone
 CHECK_DEADLOCK FALSE
